@@ -968,6 +968,7 @@ func RunC19(d *Driver) *Report {
 		return r
 	}
 	defer os.RemoveAll(dir)
+	nrun := 0
 	doEvy := func(stream, body string) {
 		src := body
 		if strings.Contains(body, "nan") || strings.Contains(body, "inf") {
@@ -977,6 +978,13 @@ func RunC19(d *Driver) *Report {
 		path := filepath.Join(dir, "p.evy")
 		out := filepath.Join(dir, "out.svg")
 		os.Remove(out)
+		if nrun++; nrun%2 == 0 {
+			// the output path holds an older, much longer drawing: what is there afterwards must be this run's document only
+			os.WriteFile(out, []byte(strings.Repeat("<!-- stale drawing -->\n<circle cx=\"1\" cy=\"1\" r=\"1\"/>\n", 4000)), 0o644) //nolint
+			r.Hist("svg-out-path", "existing longer file")
+		} else {
+			r.Hist("svg-out-path", "absent")
+		}
 		os.WriteFile(path, []byte(src), 0o644) //nolint
 		// address space limited: a grid loop that never ends allocates without bound
 		pr := runProc(20*time.Second, "", "sh", "-c", `ulimit -v 4000000; exec "$0" "$@"`, bin, "run", "--svg-out", out, path)
